@@ -71,9 +71,26 @@ Theorem inv_cache_spans_len_visible_pre :
   <> map f [len_w1; len_w2].
 Proof. intro f. intro H. vm_compute in H. discriminate H. Qed.
 
+(** before 8592559 [Hash for Function] fed the body hash only; the signature cache then served
+    the signature of another function with the same body.  The real history:
+      F ← |1.0 + / G ← F      then      F ← + / G ← F / ∩G 1 2 3 4      gave [4 6] instead of [7 3] *)
+Definition S10 := 1. Definition S21' := 65538.
+Definition sg_w1 : list node := [NCall 70 S10 0 44 1 (NPrim ADD 2) 3].
+Definition sg_w2 : list node := [NCall 70 S21' 0 44 1 (NPrim ADD 2) 3].
+Theorem sig_cache_refuted_pre : exists x y, sig_key_pre x = sig_key_pre y /\ sig_cache_deps x <> sig_cache_deps y.
+Proof. exists sg_w1, sg_w2. split; [reflexivity|]. intro H. vm_compute in H. discriminate H. Qed.
+
+(** before 261768c the anti-inverse key did not feed [for_un].  The real program:
+      M! ← ⊃(⌝^0 1|°(^0 1)) / M!ℂ ℂ0 5     gave different results for the two orders of the branches *)
+Definition an_w1 : inv_input := ([NPrim MUL 4; NPush 1], (0, false)).
+Definition an_w2 : inv_input := ([NPrim MUL 4; NPush 1], (0, true)).
+Theorem anti_cache_for_un_refuted_pre : exists x y, anti_key_pre x = anti_key_pre y /\ inv_deps_named x <> inv_deps_named y.
+Proof. exists an_w1, an_w2. split; [reflexivity|]. intro H. vm_compute in H. discriminate H. Qed.
+
 (** the repaired keys tell every one of these pairs apart *)
 Theorem repaired_keys_separate :
   inv_key un_w1 <> inv_key un_w2 /\ inv_key un_w3 <> inv_key un_w4 /\
   zip_key zip_w1 <> zip_key zip_w2 /\ zip_key zip_w3 <> zip_key zip_w4 /\
-  inv_key un_n1 <> inv_key un_n2 /\ zip_key zip_n1 <> zip_key zip_n2.
+  inv_key un_n1 <> inv_key un_n2 /\ zip_key zip_n1 <> zip_key zip_n2 /\
+  sig_key sg_w1 <> sig_key sg_w2 /\ inv_key an_w1 <> inv_key an_w2.
 Proof. repeat split; intro H; vm_compute in H; discriminate H. Qed.
